@@ -263,15 +263,39 @@ theorem typeNames_merge (a b : Tree) (x : String) :
 theorem declNames_append (a b : List PDecl) : declNames (a ++ b) = declNames a ++ declNames b := by
   simp [declNames]
 
+/-- the effect of `mod` on a state `s`, given the final state `r` of the module's own fold -/
+def modStep (s r : St) (tname fname : String) (line : Nat) : St :=
+  match r.firstErr with
+  | some e => s.fail (e ++ [⟨"file", s!"Failed to parse {tname}", none, none⟩]
+                ++ [⟨"import", s!"Failed to import {tname}", some fname, some line⟩])
+  | none => { s with tree := s.tree.merge r.tree }
+
+theorem fail_isSome (s : St) (e : Err) : (s.fail e).firstErr.isSome := by
+  simp only [St.fail]; cases s.firstErr <;> simp [Option.orElse]
+
+theorem modStep_sticky (s r : St) (tname fname : String) (line : Nat) (h : s.firstErr.isSome) :
+    (modStep s r tname fname line).firstErr.isSome := by
+  unfold modStep; split
+  · exact fail_isSome _ _
+  · exact h
+
+theorem modStep_fail (s r : St) (tname fname : String) (line : Nat) (h : r.firstErr.isSome) :
+    (modStep s r tname fname line).firstErr.isSome := by
+  unfold modStep; split
+  · exact fail_isSome _ _
+  · rename_i hn; rw [hn] at h; simp at h
+
+theorem modStep_ok (s r : St) (tname fname : String) (line : Nat) (h : r.firstErr = none) :
+    modStep s r tname fname line = { s with tree := s.tree.merge r.tree } := by
+  unfold modStep; rw [h]
+
 /-- the step of a `mod` declaration on any state, in terms of the module's own fold -/
 theorem elabDecl_mod (fs : FS) (fuel : Nat) (path mpath : List String) (line vl : Nat) (src : String)
     (inner : List PDecl) (s : St)
     (hread : fs.read (modTarget path mpath) = some src) (hparse : parseText src = .ok ⟨"3", vl, inner⟩) :
     elabDecl (loadFile fs (fuel + 1)) fs path s (.mod mpath line) =
-      (match (foldDecls (loadFile fs fuel) fs (modTarget path mpath) {} inner).firstErr with
-       | some e => s.fail (e ++ [⟨"file", s!"Failed to parse {(modTarget path mpath).getLast?.getD ""}", none, none⟩]
-                     ++ [⟨"import", s!"Failed to import {(modTarget path mpath).getLast?.getD ""}", some (path.getLast?.getD ""), some line⟩])
-       | none => { s with tree := s.tree.merge (foldDecls (loadFile fs fuel) fs (modTarget path mpath) {} inner).tree }) := by
+      modStep s (foldDecls (loadFile fs fuel) fs (modTarget path mpath) {} inner)
+        ((modTarget path mpath).getLast?.getD "") (path.getLast?.getD "") line := by
   simp only [elabDecl]
   have hr : fs.read (path.dropLast ++ mpath.dropLast ++ [mpath.getLast?.getD "" ++ ".fcp"]) = some src := hread
   rw [hr]
@@ -280,12 +304,10 @@ theorem elabDecl_mod (fs : FS) (fuel : Nat) (path mpath : List String) (line vl 
       foldDecls (loadFile fs fuel) fs (modTarget path mpath) {} inner := rfl
   unfold modTarget at hfd ⊢
   rw [hfd]
+  unfold modStep
   cases hfe : (foldDecls (loadFile fs fuel) fs (path.dropLast ++ mpath.dropLast ++ [mpath.getLast?.getD "" ++ ".fcp"]) {} inner).firstErr with
   | none => simp
   | some e => simp
-
-theorem fail_isSome (s : St) (e : Err) : (s.fail e).firstErr.isSome := by
-  simp only [St.fail]; cases s.firstErr <;> simp [Option.orElse]
 
 /-- **C20 in general position**: folding the declarations of a split file (loading its
 modules) from a state, and folding the flat declarations from an observationally equal state,
@@ -317,32 +339,28 @@ theorem split2_fold (fs : FS) : ∀ (n : Nat) (path : List String) (pre ds flat 
     have hmf : ModFree flatInner := hin.modFree
     have htree : s.tree = s'.tree := by simp only [St.view, Prod.mk.injEq] at hv; exact hv.1
     have herr : s.firstErr.isSome = s'.firstErr.isSome := by simp only [St.view, Prod.mk.injEq] at hv; exact hv.2
-    simp only [foldDecls, List.foldl_cons, List.foldl_append]
-    rw [elabDecl_mod fs fuel' path mpath line vl src inner s hread hparse]
+    -- left: one `mod` step, then the rest; right: the block, then the rest
+    have hL : foldDecls (loadFile fs (fuel' + 1)) fs path s (.mod mpath line :: ds) =
+        foldDecls (loadFile fs (fuel' + 1)) fs path (elabDecl (loadFile fs (fuel' + 1)) fs path s (.mod mpath line)) ds := rfl
+    rw [hL, foldDecls_append, elabDecl_mod fs fuel' path mpath line vl src inner s hread hparse]
     -- the flat side after the block, through the frame lemma
     have hfr : Fresh s'.tree flatInner := fun d hd x hx hmem => hfresh d hd x hx (hnames x hmem)
     have hframe := foldDecls_frame l2 fs2 p2 s'.tree flatInner hmf hfr {} s'.firstErr
     rw [merge_empty] at hframe
-    have hs' : s' = ⟨s'.tree, s'.firstErr⟩ := rfl
-    have hfold' : List.foldl (fun s d => elabDecl l2 fs2 p2 s d) s' flatInner = foldDecls l2 fs2 p2 s' flatInner := rfl
-    rw [hfold', hs', hframe]
+    have hs' : s' = (⟨s'.tree, s'.firstErr⟩ : St) := rfl
+    rw [hs', hframe]
     cases hse : s'.firstErr with
     | some e0 =>
       -- already failed: both sides stay failed
       have hs : s.firstErr.isSome := by rw [herr, hse]; rfl
-      have a : (match (foldDecls (loadFile fs fuel') fs (modTarget path mpath) {} inner).firstErr with
-          | some e => s.fail (e ++ [⟨"file", s!"Failed to parse {(modTarget path mpath).getLast?.getD ""}", none, none⟩]
-                     ++ [⟨"import", s!"Failed to import {(modTarget path mpath).getLast?.getD ""}", some (path.getLast?.getD ""), some line⟩])
-          | none => { s with tree := s.tree.merge (foldDecls (loadFile fs fuel') fs (modTarget path mpath) {} inner).tree }).firstErr.isSome := by
-        split
-        · exact fail_isSome _ _
-        · exact hs
+      have a := modStep_sticky s (foldDecls (loadFile fs fuel') fs (modTarget path mpath) {} inner)
+        ((modTarget path mpath).getLast?.getD "") (path.getLast?.getD "") line hs
       have a' := foldDecls_err_sticky (loadFile fs (fuel' + 1)) fs path ds _ a
-      have b : (foldDecls l2 fs2 p2 ⟨{}, some e0⟩ flatInner).firstErr.isSome :=
-        foldDecls_err_sticky l2 fs2 p2 flatInner ⟨{}, some e0⟩ rfl
+      have b : (foldDecls l2 fs2 p2 (⟨{}, some e0⟩ : St) flatInner).firstErr.isSome :=
+        foldDecls_err_sticky l2 fs2 p2 flatInner (⟨{}, some e0⟩ : St) rfl
       have b' := foldDecls_err_sticky l2 fs2 p2 flat
-        ⟨s'.tree.merge (foldDecls l2 fs2 p2 ⟨{}, some e0⟩ flatInner).tree, (foldDecls l2 fs2 p2 ⟨{}, some e0⟩ flatInner).firstErr⟩ b
-      simp only [foldDecls] at a' b'
+        (⟨s'.tree.merge (foldDecls l2 fs2 p2 (⟨{}, some e0⟩ : St) flatInner).tree,
+          (foldDecls l2 fs2 p2 (⟨{}, some e0⟩ : St) flatInner).firstErr⟩ : St) b
       rw [(res_none_iff _).mpr a', (res_none_iff _).mpr b']
     | none =>
       have hsn : s.firstErr = none := by
@@ -355,15 +373,13 @@ theorem split2_fold (fs : FS) : ∀ (n : Nat) (path : List String) (pre ds flat 
         have hnone : (foldDecls (loadFile fs fuel') fs (modTarget path mpath) {} inner).res = none :=
           (res_none_iff _).mpr (by simp [hfe])
         rw [hnone] at hinner
-        have h2 := (res_none_iff _).mp hinner.symm
-        have a' := foldDecls_err_sticky (loadFile fs (fuel' + 1)) fs path ds
-          (s.fail (e ++ [⟨"file", s!"Failed to parse {(modTarget path mpath).getLast?.getD ""}", none, none⟩]
-            ++ [⟨"import", s!"Failed to import {(modTarget path mpath).getLast?.getD ""}", some (path.getLast?.getD ""), some line⟩]))
-          (fail_isSome _ _)
+        have h2 : (foldDecls l2 fs2 p2 (⟨{}, none⟩ : St) flatInner).firstErr.isSome := (res_none_iff _).mp hinner.symm
+        have a' := foldDecls_err_sticky (loadFile fs (fuel' + 1)) fs path ds _
+          (modStep_fail s (foldDecls (loadFile fs fuel') fs (modTarget path mpath) {} inner)
+            ((modTarget path mpath).getLast?.getD "") (path.getLast?.getD "") line (by simp [hfe]))
         have b' := foldDecls_err_sticky l2 fs2 p2 flat
-          ⟨s'.tree.merge (foldDecls l2 fs2 p2 ⟨{}, none⟩ flatInner).tree, (foldDecls l2 fs2 p2 ⟨{}, none⟩ flatInner).firstErr⟩ h2
-        simp only [foldDecls] at a' b'
-        simp only
+          (⟨s'.tree.merge (foldDecls l2 fs2 p2 (⟨{}, none⟩ : St) flatInner).tree,
+            (foldDecls l2 fs2 p2 (⟨{}, none⟩ : St) flatInner).firstErr⟩ : St) h2
         rw [(res_none_iff _).mpr a', (res_none_iff _).mpr b']
       | none =>
         have hsome : (foldDecls (loadFile fs fuel') fs (modTarget path mpath) {} inner).res =
@@ -371,8 +387,8 @@ theorem split2_fold (fs : FS) : ∀ (n : Nat) (path : List String) (pre ds flat 
           simp [St.res, hfe]
         rw [hsome] at hinner
         -- the block on its own succeeds with the same tree
-        have hr0 : (foldDecls l2 fs2 p2 ⟨{}, none⟩ flatInner).firstErr = none ∧
-            (foldDecls l2 fs2 p2 ⟨{}, none⟩ flatInner).tree =
+        have hr0 : (foldDecls l2 fs2 p2 (⟨{}, none⟩ : St) flatInner).firstErr = none ∧
+            (foldDecls l2 fs2 p2 (⟨{}, none⟩ : St) flatInner).tree =
               (foldDecls (loadFile fs fuel') fs (modTarget path mpath) {} inner).tree := by
           have := hinner.symm
           simp only [St.res] at this
@@ -381,15 +397,12 @@ theorem split2_fold (fs : FS) : ∀ (n : Nat) (path : List String) (pre ds flat 
           · rename_i hno
             simp only [Option.some.injEq] at this
             refine ⟨?_, this⟩
-            cases hq : (foldDecls l2 fs2 p2 ⟨{}, none⟩ flatInner).firstErr with
+            cases hq : (foldDecls l2 fs2 p2 (⟨{}, none⟩ : St) flatInner).firstErr with
             | none => rfl
-            | some q => rw [hq] at hno; simp at hno
-        simp only
-        have hfold2 : ∀ (st : St) (l : List PDecl), List.foldl (fun s d => elabDecl (loadFile fs (fuel' + 1)) fs path s d) st l =
-            foldDecls (loadFile fs (fuel' + 1)) fs path st l := fun _ _ => rfl
-        have hfold3 : ∀ (st : St) (l : List PDecl), List.foldl (fun s d => elabDecl l2 fs2 p2 s d) st l =
-            foldDecls l2 fs2 p2 st l := fun _ _ => rfl
-        rw [hfold2, hfold3]
+            | some q =>
+              have : (foldDecls l2 fs2 p2 ({} : St) flatInner).firstErr = some q := hq
+              rw [this] at hno; simp at hno
+        rw [modStep_ok _ _ _ _ _ hfe]
         apply ih (fuel' + 1) hfuel l2 fs2 p2
         · simp only [St.view, hr0.1, hr0.2, htree, hsn]
         · intro x hx
@@ -397,7 +410,7 @@ theorem split2_fold (fs : FS) : ∀ (n : Nat) (path : List String) (pre ds flat 
           rw [declNames_append]
           rcases (typeNames_merge _ _ x).mp hx with h1 | h1
           · exact List.mem_append.mpr (.inl (hnames x h1))
-          · rcases foldDecls_names l2 fs2 p2 flatInner hmf ⟨{}, none⟩ x h1 with h2 | h2
+          · rcases foldDecls_names l2 fs2 p2 flatInner hmf (⟨{}, none⟩ : St) x h1 with h2 | h2
             · simp [Tree.typeNames] at h2
             · exact List.mem_append.mpr (.inr h2)
 
